@@ -25,8 +25,10 @@ import ParsecVerif.Model.RemoteDep
     Both are value preserving: the receiver's copy becomes the SENDER's copy (a relay forwards what
     it received).
   * When a message completes at rank `d` (remote_dep_release_incoming): the copy is stored, every
-    dependency `(a, b, k)` with `b` on `d` and `k` among the payloads is released, and the receiver
-    re-activates the collective from its own position (forwarding to its children).
+    dependency `(a, b, k)` with `b` on `d` and `k` among the payloads — or `k` a control (CTL) output:
+    the receiver learns those from the propagation mask in the header, no payload is needed — is
+    released, and the receiver re-activates the collective from its own position (forwarding to its
+    children).
 
   A run is any sequence of enabled transitions (any number of worker threads and one communication
   thread per rank, any message delivery order).
@@ -35,12 +37,17 @@ namespace ParsecVerif.DistRt
 open ParsecVerif.Dataflow ParsecVerif.RemoteDep
 
 /-- labelled task graph: an edge `(src, dst, k)` = output flow `k` of `src` feeds `dst`
-    (duplicates allowed, e.g. one output feeding two input flows of the same successor) -/
+    (duplicates allowed, e.g. one output feeding two input flows of the same successor);
+    `ctl` lists the (node, output) pairs that are control flows (no payload) -/
 structure DGraph where
   n : Nat
   nout : Nat
   E : List (Nat × Nat × Nat)
+  ctl : List (Nat × Nat) := []
 deriving Repr
+
+/-- output `k` of node `a` carries no data (CTL flow) -/
+def DGraph.isCtl (g : DGraph) (a k : Nat) : Bool := g.ctl.contains (a, k)
 
 /-- the underlying single-process task graph -/
 def DGraph.graph (g : DGraph) : Graph := ⟨g.n, g.E.map fun e => (e.1, e.2.1)⟩
@@ -78,6 +85,15 @@ def cfgOf (g : DGraph) (cf : Conf) (a : Nat) : Cfg :=
     decidable side condition for the configured topology -/
 def deliveryOKAll (g : DGraph) (cf : Conf) : Bool :=
   (List.range g.n).all fun a => (cfgOf g cf a).deliveryOK
+
+/-- C13's side condition restricted to the outputs that carry data: every relay holds every DATA output that
+    the ranks it forwards to consume.  (A control output needs no payload: the receiver releases it from the
+    propagation mask in the header of whatever activation message reaches it — remote_dep_get_datatypes.) -/
+def dataOK (c : Cfg) (isCtl : Nat → Bool) : Bool :=
+  c.edges.all fun px => px.1 == c.root || c.outs.all fun o => isCtl o.1 || !o.2.contains px.2 || o.2.contains px.1
+
+def dataOKAll (g : DGraph) (cf : Conf) : Bool :=
+  (List.range g.n).all fun a => dataOK (cfgOf g cf a) (g.isCtl a)
 
 /-! ## State -/
 
@@ -122,9 +138,10 @@ def denabled (cf : Conf) (s : DSt) : DTr → Bool
 def localInputs (g : DGraph) (cf : Conf) (s : DSt) (i : Nat) : List (Option Nat) :=
   (predsOf g.graph i).map fun p => look s.store (cf.place i, p)
 
-/-- successors released when message `m` of `a`'s collective completes at `m.dst` -/
+/-- successors released when message `m` of `a`'s collective completes at `m.dst`: those fed by an output whose
+    payload came with `m`, and those fed by a control output (named by the propagation mask of the header) -/
 def releasedBy (g : DGraph) (cf : Conf) (a : Nat) (m : Msg) : List Nat :=
-  (g.E.filter fun e => e.1 == a && cf.place e.2.1 == m.dst && m.keys.contains e.2.2).map fun e => e.2.1
+  (g.E.filter fun e => e.1 == a && cf.place e.2.1 == m.dst && (m.keys.contains e.2.2 || g.isCtl a e.2.2)).map fun e => e.2.1
 
 /-- completion of message `m` of node `a`'s collective at rank `m.dst` (remote_dep_release_incoming) -/
 def complete (g : DGraph) (cf : Conf) (F : Nat → List (Option Nat) → Nat) (s : DSt) (a : Nat) (m : Msg) : DSt :=
